@@ -361,7 +361,12 @@ func (update *Update) Prepend(eventlist *EventList) error {
 		SignedAccumulator: update.SignedAccumulator,
 		Events:            update.Events[min:],
 	}
-	n.product = n.Product(n.Events[0].Index)
+	if len(n.Events) != 0 {
+		n.product = n.Product(n.Events[0].Index)
+	} else {
+		// The list reaches up to and including our own last event: nothing of ours is left to add.
+		n.product = big.NewInt(1)
+	}
 	n.Events = append(eventlist.Events, n.Events...)
 	if eventlist.product != nil {
 		n.product.Mul(n.product, eventlist.product)
